@@ -348,6 +348,12 @@ func mkBinop(op token.Token, x, y *Val, t types.Type) *Val {
 		if x.Key() == y.Key() && !x.Contains(func(v *Val) bool { return v.Op == "unknown" }) {
 			return mkBool(op == token.EQL)
 		}
+		// the same integer up to value-preserving conversions (n against int(n) for a narrower unsigned n)
+		if x.Type != nil && y.Type != nil && isIntegerType(x.Type) && isIntegerType(y.Type) && !x.Contains(func(v *Val) bool { return v.Op == "unknown" }) {
+			if a, b := affOf(x), affOf(y); !a.Top && !b.Top && a.Equal(b) {
+				return mkBool(op == token.EQL)
+			}
+		}
 		// short count never equals the requested length
 		if isShortVs(x, y) || isShortVs(y, x) {
 			return mkBool(op == token.NEQ)
